@@ -125,6 +125,18 @@ def examine(case):
     env = ns.ex(src)
     q, e = env["q"], env["e"]
     text = str(q)
+    # the aliases a statement references are the ones ITS select list defines: the same statement built from a FROM
+    # clause that a sibling statement (selecting the aliased term) was also built from renders the same text
+    last = src.split("\n")[-1]
+    head = "q = %s.from_(t)" % QNAMES[case["cls"]]
+    if last.startswith(head):
+        alt = "\n".join(src.split("\n")[:-1] + ["base = " + head[4:], "sib = base.select(e, t.x).groupby(e).orderby(e)",
+                                                  "s_text = str(sib)", "q = base" + last[len(head):]])
+        env2 = ns.ex(alt)
+        if str(env2["q"]) != text:
+            res.findings.append({"sig": {"kind": "sibling-alias", "term": case["kind"]},
+                                 "what": "next to a sibling statement selecting the alias the statement renders %s, alone %s | %s"
+                                         % (str(env2["q"]), text, src)})
     b = q
     cls = case["cls"]
     alias = case["alias"]
